@@ -192,8 +192,11 @@ class Report:
             suffix = "" if f.replayed else " no-failing-input-found"
             vio_lines.append(f"VIOLATION property={self.prop} replay={path}{suffix}")
             lines.append(f"  obligation {f.obligation}: {f.what[:400]}")
+        # obligations that fail only because of a recorded (known) finding are reported apart: they are neither discharged nor new
+        n_known_ob = len(known_seen)
         cov = {
-            "obligations": self.obligations,
+            "obligations": self.obligations - n_known_ob,
+            "known_finding_obligations": n_known_ob,
             "discharged": self.discharged,
             "discharged_by_backend": self.by_backend,
             "solver_seconds": round(self.solver_s, 3),
